@@ -11,25 +11,27 @@ import (
 type OSProfile struct {
 	// PhaseObjectDrift lets the intruder delete delegated phase objects (they are re-created with a new UID).
 	PhaseObjectDrift bool
-	MaxSets          int
-	Preexisting      int    // chance (x/10) that a pool object pre-exists in a generated ownership state
-	Lifecycle        bool   // pause / archive / delete / orphan-delete user operations
-	Violations       bool   // preflight violators
-	Delegation       bool   // phases with class default (and hosted-cluster when cfg.Hosted)
-	Intruder         string // "", "boundary", "granular"
-	Finalizers       bool   // intruder may put blocking finalizers on managed objects
-	ForceCluster     int    // 0 draw, 1 namespaced, 2 cluster-scoped
-	LateCreate       bool   // some sets are created by user operations during the run
-	NeverReady       bool   // some workloads never become ready / stay stale
-	NoForge          bool   // third parties never forge ownership by one of the generated sets
-	CompletePrev     bool   // every set names all earlier sets as previous (no contested objects)
-	Sliced           int    // 0 inline; 1 move phase objects into hand-made ObjectSlices
-	OldestFirst      bool   // archive/delete operations only hit the oldest set still alive (no re-create race among older revisions)
-	DelegateMask     int    // bit i set: phase i of every set is delegated to class "default" (no choices consumed)
-	NoOrphan         bool   // no orphan-propagation deletes among the lifecycle operations
-	CondMappings     bool   // some listed objects carry conditionMappings (C19)
-	AllLate          bool   // every set but the first is created by its own user operation
-	DriftOnly        bool   // the intruder only edits managed fields, deletes, and blocks deletion (C10)
+	// SliceDrift lets the intruder delete ObjectSlices (sliced scenarios).
+	SliceDrift   bool
+	MaxSets      int
+	Preexisting  int    // chance (x/10) that a pool object pre-exists in a generated ownership state
+	Lifecycle    bool   // pause / archive / delete / orphan-delete user operations
+	Violations   bool   // preflight violators
+	Delegation   bool   // phases with class default (and hosted-cluster when cfg.Hosted)
+	Intruder     string // "", "boundary", "granular"
+	Finalizers   bool   // intruder may put blocking finalizers on managed objects
+	ForceCluster int    // 0 draw, 1 namespaced, 2 cluster-scoped
+	LateCreate   bool   // some sets are created by user operations during the run
+	NeverReady   bool   // some workloads never become ready / stay stale
+	NoForge      bool   // third parties never forge ownership by one of the generated sets
+	CompletePrev bool   // every set names all earlier sets as previous (no contested objects)
+	Sliced       int    // 0 inline; 1 move phase objects into hand-made ObjectSlices
+	OldestFirst  bool   // archive/delete operations only hit the oldest set still alive (no re-create race among older revisions)
+	DelegateMask int    // bit i set: phase i of every set is delegated to class "default" (no choices consumed)
+	NoOrphan     bool   // no orphan-propagation deletes among the lifecycle operations
+	CondMappings bool   // some listed objects carry conditionMappings (C19)
+	AllLate      bool   // every set but the first is created by its own user operation
+	DriftOnly    bool   // the intruder only edits managed fields, deletes, and blocks deletion (C10)
 }
 
 const (
@@ -286,7 +288,7 @@ func GenOS(w *World, prof OSProfile) *Scenario {
 		}
 	}
 	if prof.Intruder != "" {
-		w.AddAgent(&IntruderAgent{G: g, Mode: prof.Intruder, Budget: 1 + s.Intn(6, "intruder-budget"), Finalize: prof.Finalizers, Targets: targets, DriftOnly: prof.DriftOnly, PhaseObjects: prof.PhaseObjectDrift})
+		w.AddAgent(&IntruderAgent{G: g, Mode: prof.Intruder, Budget: 1 + s.Intn(6, "intruder-budget"), Finalize: prof.Finalizers, Targets: targets, DriftOnly: prof.DriftOnly, PhaseObjects: prof.PhaseObjectDrift, Slices: prof.SliceDrift})
 	}
 	w.AddAgent(wl)
 	if w.Host != nil {
